@@ -253,6 +253,11 @@ impl C01Check {
                                 // undefined for the reference: same for every implementation and layout
                                 break;
                             }
+                            if matches!(layout, Layout::Spaced) {
+                                // every token stands between blanks: by the language's token rules nothing can merge, so a lexer
+                                // that returns other tokens has misread the program (not something to skip)
+                                ctx.fail(format!("spaced-program-lexed-into-other-tokens:{}", imp.name()), format!("{:?}: the lexer does not return the tokens the program is written with", text));
+                            }
                         }
                         Verdict::Fail(kind, detail) => {
                             judged += 1;
